@@ -573,10 +573,10 @@ for n in (0, 1, 3):
 
 NAMEF = "src/debugger/command/parse/name.rs"
 for e in range(18):
-    H("C14", f"debugger::command::parse::name::verif_h::c14_names_entry_{e:02d}", NAMEF, tier=("quick" if e in (0, 11) else "thorough"), covers=1, timeout=3000, mem_gb=24,
+    H("C14", f"debugger::command::parse::name::verif_h::c14_names_entry_{e:02d}", NAMEF, tier="thorough", covers=1, timeout=5400, mem_gb=24,
       functions=["find_name_match", "name_matches", "COMMANDS"], what=f"entry {e} of the real command table: every name/alias in every letter case (symbolic case mask) "
       "resolves to its command, no name is shadowed by an earlier entry; every misspelling gives a suggestion", bounds="the table as compiled; names <= 24 bytes")
-H("C14", "debugger::command::parse::name::verif_h::c14_names_subcommands", NAMEF, covers=0, timeout=3000, mem_gb=24,
+H("C14", "debugger::command::parse::name::verif_h::c14_names_subcommands", NAMEF, tier="thorough", covers=0, timeout=3000, mem_gb=24,
   functions=["find_name_match", "name_matches", "SUBCOMMANDS_STEP", "SUBCOMMANDS_BREAK"], what="step / break subcommand tables, symbolic case mask", bounds="the tables as compiled")
 
 RUNLOOP_STUBS = [FMT, SYM, PRINT, EXIT, "Debugger::next_action -> its contract (Proceed only from an executable PC; decided by c10_running_* / c10_cmd_*)",
